@@ -2,7 +2,7 @@
 import prometheus_client as prom
 
 from mc.harness import harness, oracle
-from mc.kit import E, E2, ManualExecutor, ProbeFuture, snapshot
+from mc.kit import E, E2, FalsyE, ManualExecutor, ProbeFuture, snapshot
 from more_executors import Executors
 from more_executors._impl import futures as F
 from more_executors._impl.metrics import metrics as _m
@@ -99,7 +99,8 @@ def body(mc, p):
             if ev == "run_ok":
                 base.complete(it.idx, "v")
             else:
-                base.complete(it.idx, exc=E("x"))
+                # every other failure is an exception object that is falsy: it still counts as a failure
+                base.complete(it.idx, exc=(FalsyE if it.idx % 2 else E)("x"))
         elif ev == "cancel":
             f = [f for f in fs if not f.done()][0]
             f.cancel()
